@@ -8,7 +8,12 @@ Implementation functions driven (real code from /repo/src):
   Segmentation.get_volume_geometry with every combination of passed / defaulted
   allow_missing_positions x allow_duplicate_positions (kind mf_geometry);
   get_volume_positions on the same stack in two orders (kind order_pair, both
-  orders evaluated by the model) and on integer-typed positions (int_positions).
+  orders evaluated by the model) and on integer-typed positions (int_positions);
+  every entry point that forwards rtol / atol on stacks whose irregularity lies
+  between the two readings of the tolerance value (kind tol_forward);
+  ONE Image / Segmentation object asked a list of get_volume_geometry /
+  get_volume queries (Image.get_volume, Segmentation.get_volume with frames of
+  one plane in different segments) one after the other (kind mf_history).
 Model: coq/theories/C11_Model.v; theorems: C11_Props.v.
 
 The oracle is independent of the model: every stack is generated from ideal
@@ -46,11 +51,14 @@ MODELLED = ('spatial.get_normal_vector, _normalize_pixel_index_convention, _get_
             'axis), _Image._get_stacked_volume_geometry + get_volume (frame placement, gaps, origin, slice axis), '
             'Image.get_volume_geometry / Segmentation.get_volume_geometry -> _get_volume_geometry (class defaults of '
             'allow_missing_positions / allow_duplicate_positions, forwarding of both declarations, RuntimeError -> '
-            'None, number of slices, spacing, origin, slice axis)')
+            'None, number of slices, spacing, origin, slice axis); Image.get_volume / Segmentation.get_volume '
+            '(stacked branch: frames identified by (position, segment), _prepare_volume_positions_table, which frame '
+            'lands in which slice x channel); a sequence of queries on one object = the list of the stateless answers')
 STRATA = ['perm_all', 'regular', 'unsorted', 'dups', 'gaps', 'jitter', 'shear', 'scrambled', 'inplane', 'hint',
           'malformed', 'normal', 'series', 'plane_sort', 'sort_datasets', 'vol_series', 'vol_multiframe',
           'mf_geometry', 'order_pair', 'int_positions', 'tol_forward', 'mf_history']
-NOT_EXECUTED = ['Segmentation.get_volume (same _prepare_volume_positions_table path, covered by C01/C02 harnesses)',
+NOT_EXECUTED = ['Segmentation.get_volume options other than rtol / atol / allow_missing_positions (segment selection, '
+                'combine_segments, relabel: C01/C02 harnesses)',
                 'tiled (slide coordinate system) branch of get_volume: no stacking involved',
                 'slice_start / slice_end / as_indices of Image.get_volume (index standardisation: C03)',
                 'single-frame branch of _get_volume_geometry (one plane: no stack to recognise)']
@@ -71,7 +79,18 @@ RULE = ('stacks of n <= 8 planes (<= 12 thorough) from integer ranks x spacing a
         'with a gap, plus random ones; the same frames in a second order must give the identical geometry (the '
         'second order is a model-compared case of its own); order_pair: get_volume_positions on the same stack '
         '(regular, duplicates, gaps, jitter, shear, scrambled, hints, ties) in two orders, both model-compared, same '
-        'verdict / spacing / per-plane index demanded; int_positions: integer-valued stacks passed as Python ints. '
+        'verdict / spacing / per-plane index demanded; int_positions: integer-valued stacks passed as Python ints; '
+        'tol_forward: spacing s outside (1/2, 2), one value t passed as rtol or as atol, one gap off by an amount '
+        'between t and t x s (with declared gaps: the farthest plane off by between t and t x kmax spacings), or inside / '
+        'outside both, through get_volume_positions, get_series_volume_positions, get_volume_from_series, '
+        'Image.get_volume and Image / Segmentation.get_volume_geometry; mf_history: one Image (enhanced CT) or '
+        'Segmentation (frames of one plane in different segments, now and then in the same one) with several frames '
+        'per plane / a gap / both / a gap off by between two tolerances / complete, asked 2-8 queries in a row '
+        '(get_volume_geometry with allow_missing_positions x allow_duplicate_positions x rtol / atol passed or not, '
+        'get_volume with allow_missing_positions x rtol / atol), always containing two queries that differ only in '
+        'the argument that decides this stack, in either order, often the first query again at the end and a '
+        'get_volume after geometry queries; every answer judged on its own from the stack and the arguments of '
+        'that query, identical queries must get identical answers, assembled arrays checked frame by frame. '
         'non-trivial = more than one distinct plane and the spec decides the case (not within 1e-6 of '
         'a threshold); distinct by case hash')
 EXHAUSTIVE = {'quick': False, 'thorough': False}
@@ -723,8 +742,9 @@ def _mk_history(rng, target, mode):
         qs.append(q())
     if rng.random() < 0.6:
         qs.append(dict(a))
-    if rng.random() < 0.4:
-        qs.append(q(op='volume', km=rng.choice([None, a['km']]), rt_at=(a['rtol'], a['atol'])))
+    if rng.random() < 0.4 or mode == 'tol':
+        qs.append(q(op='volume', km=rng.choice([None, a['km']]),
+                    rt_at=rng.choice([(t, None), (None, t)]) if mode == 'tol' else (a['rtol'], a['atol'])))
     if rng.random() < 0.2:
         qs.insert(0, q())
     for x in qs:
